@@ -214,6 +214,11 @@ impl IoData {
     // clear the io flag
     #[inline]
     pub fn reset(&self) -> usize {
+        #[cfg(may_verif)]
+        crate::verif::pt("io.reset", crate::verif::addr(&*self.0), 0, 0);
+        // (a point after the swap too: the optimistic non-blocking call of the fast paths follows)
+        #[cfg(may_verif)]
+        let _after = crate::verif::PointOnDrop("io.try", crate::verif::addr(&*self.0));
         self.io_flag.swap(0, Ordering::AcqRel)
     }
 }
